@@ -18,7 +18,7 @@ func (ex *Exec) call(st *State, in ssa.Instruction, c *ssa.CallCommon) (Value, b
 	if c.IsInvoke() {
 		recv := st.val(c.Value)
 		it := c.Value.Type()
-		spec, cf := ex.db.ifaceSpec(it, c.Method.Name())
+		spec, cf := ex.db.ifaceSpec(it, c.Method.Name(), ex.pkgPath)
 		args := []TV{{recv, it}}
 		for _, a := range c.Args {
 			args = append(args, TV{st.val(a), a.Type()})
@@ -41,9 +41,6 @@ func (ex *Exec) call(st *State, in ssa.Instruction, c *ssa.CallCommon) (Value, b
 		// call of a function value
 		if f, ok := st.val(c.Value).(Fn); ok {
 			callee = f.Fn
-			if len(f.Bindings) > 0 {
-				unsup("call of closure %s with captured variables", callee.Name())
-			}
 		} else {
 			sig := c.Signature()
 			// a call through a package-level function variable may have a (trusted) contract: `ext <pkg>.<var>(params)`,
@@ -65,6 +62,31 @@ func (ex *Exec) call(st *State, in ssa.Instruction, c *ssa.CallCommon) (Value, b
 							return ex.applyContract(st, in, ord, key, spec, ex.db.extCF[key], pn, args, sig)
 						}
 					}
+				}
+			}
+			// a call through a value of a NAMED function type may have a (trusted) contract `ext <pkg>.<TypeName>(params)`
+			for _, key := range namedFuncTypeKey(c.Value.Type()) {
+				spec, ok := ex.db.local[ex.pkgPath+"|ext "+key]
+				cf := ex.db.files[ex.pkgPath]
+				if !ok {
+					if _, bad := ex.db.conflicts["ext "+key]; bad {
+						continue
+					}
+					spec, ok = ex.db.ext[key]
+					cf = ex.db.extCF[key]
+				}
+				if ok {
+					args := make([]TV, len(c.Args))
+					for i, a := range c.Args {
+						args[i] = TV{st.val(a), a.Type()}
+					}
+					pn := spec.Params
+					if len(pn) == 0 {
+						for i := 0; i < sig.Params().Len(); i++ {
+							pn = append(pn, sig.Params().At(i).Name())
+						}
+					}
+					return ex.applyContract(st, in, ord, key, spec, cf, pn, args, sig)
 				}
 			}
 			return ex.unknownCall(st, in, "function value", sig), false
@@ -96,6 +118,19 @@ func (ex *Exec) call(st *State, in ssa.Instruction, c *ssa.CallCommon) (Value, b
 	}
 	spec, cf := ex.db.fnSpecFor(callee, ex.pkgPath)
 	sig := callee.Signature
+	if len(callee.FreeVars) > 0 {
+		// a function literal with captured variables: a contract cannot name the captures, so a straight-line body is
+		// executed inline; anything else is outside the subset
+		f, isFn := st.val(c.Value).(Fn)
+		if spec == nil && isFn {
+			if v, ended, ok := ex.inlineStraightLine(st, callee, f.Bindings, args); ok {
+				return v, ended
+			}
+		}
+		if spec != nil {
+			unsup("call of closure %s with captured variables through a contract", callee.Name())
+		}
+	}
 	if spec == nil {
 		if v, ok := ex.knownExternal(st, in, name, args, sig); ok {
 			return v, false
